@@ -20,6 +20,10 @@ func main() {
 			os.Exit(2)
 		}
 		extract(os.Args[2], os.Args[3])
+	case "stress": // child process of a `stress …` script line
+		stressMain(os.Args[2:])
+	case "canon": // print the canonical bodies of the pinned functions (to refresh the expectations in extract.go)
+		dumpCanon(os.Args[2])
 	case "enumcount": // size of the exhaustive small-scope part of the thorough tier
 		n, ops := 0, 0
 		for _, c := range enumCases() {
